@@ -2,14 +2,19 @@
 C06 — copies are equal and fully independent; attached landmarks are owned copies.
 
 Part 1 (this file, first half): `Copyable.copy` and its overrides on the heap model
-(`Core/C06Heap.lean`).  Part 2: the landmark manager as a state machine refining an ordered map
-(`Core/C06Landmarks.lean`, lemmas in `Lemmas/C06Landmarks.lean`).
+(`Core/C06Heap.lean`).  Part 3 (middle): the public mutators as operations on that heap, interleaved
+with copies (`Core/C06Ops.lean`, lemmas in `Lemmas/C06Ops.lean`, `Lemmas/C06Typed.lean`).  Part 2 (last):
+the landmark manager as a state machine refining an ordered map (`Core/C06Landmarks.lean`, lemmas in
+`Lemmas/C06Landmarks.lean`).
 
 PROPERTY theorems are marked.  Core Lean only.
 -/
 import MenpoModel.Lemmas.C06Fresh
 import MenpoModel.Lemmas.C06Total
 import MenpoModel.Lemmas.C06Landmarks
+import MenpoModel.Lemmas.C06Ops
+import MenpoModel.Lemmas.C06Typed
+import MenpoModel.Lemmas.C06Reach
 
 namespace MenpoModel.C06
 
@@ -161,6 +166,70 @@ theorem copy_total (tbl : AttrTable) (sup : SupplierTable) (hwf : copyWF tbl sup
     have := List.all_eq_true.mp hknown (C', attrs) (lookup_mem_gen hl)
     simpa using this
 
+/-- PROPERTY (a copy refers to nothing foreign): on every closed heap, whatever the result of `copy()` reaches
+— through every attribute, the documented shared ones included — is a cell allocated by that call or a cell
+the original reached.  A copy never acquires a reference to an object that the original did not already
+reach (no table hypothesis). -/
+theorem copy_reach (res : String → CopyImpl) (h : Heap) (hc : Closed h) (v : Val) (hv : Valid h v)
+    (n : Nat) (h' : Heap) (v' : Val) (e : copyCall res n h v = .ok (h', v')) :
+    ∀ b, Reach h' v' b → h.length ≤ b ∨ Reach h v b := by
+  intro b r
+  have bs := copy_basic res h n h v h' v' (Ctx.refl hc) hv e
+  obtain ⟨a', ha', hge, _⟩ := bs.root
+  exact copy_reach_aux hc bs.ext (copy_newslots res h n h v h' v' (Ctx.refl hc) hv e) r ⟨a', ha', hge⟩
+
+/-- PROPERTY (conformance is inherited by copies): a closed heap that conforms to the attribute-kind
+table still conforms after `copy()` — every object cell the copy allocates has the class, the
+attribute names and, attribute by attribute, the runtime kinds of the object cell it was copied from.
+The hypothesis `wtHeap` of the theorems above therefore holds for copies, copies of copies, … without
+being re-established. -/
+theorem copy_preserves_conformance (tbl : AttrTable) (sup : SupplierTable) (h : Heap) (hc : Closed h)
+    (hwt : wtHeap tbl sup h = true) (v : Val) (hv : Valid h v) (n : Nat) (h' : Heap) (v' : Val)
+    (e : copyCall (resOf sup) n h v = .ok (h', v')) : wtHeap tbl sup h' = true ∧ Closed h' :=
+  ⟨copy_preserves_wt tbl sup hc hwt hv e, (copy_basic (resOf sup) h n h v h' v' (Ctx.refl hc) hv e).closed⟩
+
+/-- PROPERTY (a copy of a copy): `c1 = o.copy(); c2 = c1.copy()` on a conforming heap.  The three
+objects are pairwise independent — what `c2` owns was allocated by the second call, what `c1` owns
+by the first, what `o` reaches existed before — and `c2` unfolds to the same tree as `o`.  No
+hypothesis about the intermediate heap is needed. -/
+theorem copy_of_copy_independent (tbl : AttrTable) (sup : SupplierTable) (hwf : copyWF tbl sup = true)
+    (h : Heap) (hc : Closed h) (hwt : wtHeap tbl sup h = true)
+    (a : Nat) (C : String) (fs : Slots) (hobj : h[a]? = some (.node (.obj C) fs))
+    (n1 : Nat) (h1 : Heap) (v1 : Val) (e1 : copyCall (resOf sup) n1 h (.ref a) = .ok (h1, v1))
+    (n2 : Nat) (h2 : Heap) (v2 : Val) (e2 : copyCall (resOf sup) n2 h1 v1 = .ok (h2, v2)) :
+    (∀ b, Own (resOf sup) h2 .full v2 b → h1.length ≤ b) ∧
+    (∀ b, Own (resOf sup) h2 .full v1 b → h.length ≤ b ∧ b < h1.length) ∧
+    (∀ b, Reach h2 (.ref a) b → b < h.length) ∧
+    (∀ m, absF m h2 v2 = absF m h (.ref a)) := by
+  have hv : Valid h (.ref a) := by intro b eb; cases eb; exact get_lt hobj
+  have b1 := copy_basic (resOf sup) h n1 h (.ref a) h1 v1 (Ctx.refl hc) hv e1
+  have i1 := copy_independent tbl sup hwf h hc hwt a C fs hobj n1 h1 v1 e1
+  have hwt1 := copy_preserves_wt tbl sup hc hwt hv e1
+  obtain ⟨c1, rfl, hge1, hlt1⟩ := b1.root
+  -- the first copy is an object of the same class
+  have hobj1 : ∃ fs1, h1[c1]? = some (.node (.obj C) fs1) := by
+    have hs := b1.same 1
+    simp only [absF, hobj] at hs
+    cases hcell : h1[c1]? with
+    | none => simp [hcell] at hs
+    | some cell =>
+      cases cell with
+      | buf d => simp [hcell] at hs
+      | node k fs1 =>
+        simp only [hcell, Tree.node.injEq] at hs
+        obtain ⟨rfl, _⟩ := hs
+        exact ⟨fs1, rfl⟩
+  obtain ⟨fs1, hobj1⟩ := hobj1
+  have b2 := copy_basic (resOf sup) h1 n2 h1 (.ref c1) h2 v2 (Ctx.refl b1.closed) b1.valid e2
+  have i2 := copy_independent tbl sup hwf h1 b1.closed hwt1 c1 C fs1 hobj1 n2 h2 v2 e2
+  refine ⟨i2.1, ?_, ?_, ?_⟩
+  · intro b o
+    exact ⟨i1.1 b (own_restrict _ b1.closed b2.ext o b1.valid), i2.2 b (own_reach _ o)⟩
+  · intro b r
+    exact reach_old hc (b1.ext.trans b2.ext) r hv
+  · intro m
+    rw [b2.same m, b1.same m]
+
 /-! ### non-vacuity and teeth of part 1 -/
 
 /-- a 2-D point cloud with one landmark group, held by an alignment, inside a chain -/
@@ -218,6 +287,206 @@ example : Own (resOf badSup) badCopy .full (.ref 13) 1 := by
     (x := "_landmark_groups") (w := .ref 11) (by decide) (by decide) ?_
   refine .step (k := .dict) (fs := [("g", .ref 1)]) (x := "g") (w := .ref 1) (by decide) (by decide) ?_
   exact .hereFull
+
+/-! ## Part 3 — histories: copies stay independent under every interleaving of mutators and copies
+
+The operations of `Core/C06Ops.lean` (`copy`, in-place array write, attribute / item rebinding to a
+fresh object graph, `x[k] = y.copy()` — landmark-group assignment and the `landmarks` setter —,
+`del x[k]`) performed through any of the objects the caller holds, in any order. -/
+
+/-- PROPERTY (invariant over all histories): along every accepted history the objects the caller
+holds own pairwise disjoint sets of cells (`Sep`), every object held stays held, and an object's own
+state is changed only by operations performed *through that object*: if no operation of the history
+acts through root `j`, its own state — every array, dict, nested object it owns, to every depth —
+is the same before and after, whatever was done through the original, the other copies, copies of
+copies, and however many further copies were taken (of `j` itself too). -/
+theorem history_frame {tbl : AttrTable} {sup : SupplierTable} (hwf : copyWF tbl sup = true) :
+    ∀ (ops : List HOp) (w w' : HW), Sep (resOf sup) w → runH tbl sup w ops = .ok w' →
+      Sep (resOf sup) w' ∧
+      ∀ (j rj : Nat), w.roots[j]? = some rj → w'.roots[j]? = some rj ∧
+        ((∀ op, op ∈ ops → op.actor ≠ some j) → ∀ m,
+          absO (resOf sup) m .full w'.heap (.ref rj) = absO (resOf sup) m .full w.heap (.ref rj)) := by
+  intro ops
+  induction ops with
+  | nil =>
+    intro w w' S e
+    simp only [runH, Except.ok.injEq] at e
+    subst e
+    exact ⟨S, fun j rj hj => ⟨hj, fun _ _ => rfl⟩⟩
+  | cons op t ih =>
+    intro w w' S e
+    simp only [runH] at e
+    split at e
+    · rename_i w1 hstep
+      obtain ⟨S1, keep, fr⟩ := step_sep hwf S op hstep
+      obtain ⟨S', rest⟩ := ih w1 w' S1 e
+      refine ⟨S', ?_⟩
+      intro j rj hj
+      obtain ⟨k2, f2⟩ := rest j rj (keep j rj hj)
+      refine ⟨k2, ?_⟩
+      intro hno m
+      rw [f2 (fun op' m' => hno op' (List.mem_cons_of_mem _ m')) m]
+      exact fr j rj (hno op List.mem_cons_self) hj m
+    · cases e
+
+/-- PROPERTY (`copy()` then anything): take a copy of the `i`-th object in a separated world
+(for instance: of the only object) and let any accepted history follow — writes into arrays,
+rebinding of attributes, landmark assignment, deletion, further copies, through any object.  Then
+(a) at the moment of the copy, the copy unfolds to the same tree as the original, to every depth;
+(b) if nothing is done through the copy, the copy's own state at the end is what it was;
+(c) if nothing is done through the original, the original's own state at the end is what it was
+    before the copy was taken;
+(d) the objects held at the end are still separated (so the same holds for every later copy). -/
+theorem copy_then_history {tbl : AttrTable} {sup : SupplierTable} (hwf : copyWF tbl sup = true)
+    (w : HW) (S : Sep (resOf sup) w) (i ri : Nat) (hi : w.roots[i]? = some ri)
+    (w1 : HW) (hcopy : stepH tbl sup w (.copy i) = .ok w1) (ops : List HOp) (w2 : HW)
+    (hrun : runH tbl sup w1 ops = .ok w2) :
+    ∃ c, w1.roots = w.roots ++ [c] ∧ w.heap.length ≤ c ∧
+      (∀ m, absF m w1.heap (.ref c) = absF m w.heap (.ref ri)) ∧
+      ((∀ op, op ∈ ops → op.actor ≠ some w.roots.length) → ∀ m,
+        absO (resOf sup) m .full w2.heap (.ref c) = absO (resOf sup) m .full w1.heap (.ref c)) ∧
+      ((∀ op, op ∈ ops → op.actor ≠ some i) → ∀ m,
+        absO (resOf sup) m .full w2.heap (.ref ri) = absO (resOf sup) m .full w.heap (.ref ri)) ∧
+      Sep (resOf sup) w2 := by
+  have hstep := hcopy
+  simp only [stepH, hi] at hcopy
+  split at hcopy
+  · rename_i h1 c hcp
+    cases hcopy
+    have F := copyAt_facts hwf S.closed (S.valid i ri hi) hcp
+    obtain ⟨S1, keep, fr⟩ := step_sep hwf S (.copy i) hstep
+    obtain ⟨S2, rest⟩ := history_frame hwf ops _ w2 S1 hrun
+    refine ⟨c, rfl, F.new, F.same, ?_, ?_, S2⟩
+    · intro hno m
+      have hc : (w.roots ++ [c])[w.roots.length]? = some c := by simp
+      exact (rest w.roots.length c hc).2 hno m
+    · intro hno m
+      rw [(rest i ri (keep i ri hi)).2 hno m]
+      exact fr i ri (by simp [HOp.actor]) hi m
+  · cases hcopy
+
+/-- PROPERTY (copies and array writes never leave the table): along every accepted history of
+`copy()` and in-place array writes — through the original, the copies, copies of copies — the heap
+keeps conforming to the attribute-kind table, so the conformance check that guards each `copy` step
+never refuses once the initial object graph conforms. -/
+theorem copy_write_history_conforms {tbl : AttrTable} {sup : SupplierTable} (hwf : copyWF tbl sup = true) :
+    ∀ (ops : List HOp) (w w' : HW), (∀ op, op ∈ ops → op.copyOrWrite = true) → Sep (resOf sup) w →
+      wtHeap tbl sup w.heap = true → runH tbl sup w ops = .ok w' → wtHeap tbl sup w'.heap = true := by
+  intro ops
+  induction ops with
+  | nil =>
+    intro w w' _ _ hwt e
+    simp only [runH, Except.ok.injEq] at e
+    subst e
+    exact hwt
+  | cons op t ih =>
+    intro w w' hall S hwt e
+    simp only [runH] at e
+    split at e
+    · rename_i w1 hstep
+      exact ih w1 w' (fun op' m => hall op' (List.mem_cons_of_mem _ m)) (step_sep hwf S op hstep).1
+        (step_preserves_wt S hwt op (hall op List.mem_cons_self) hstep) e
+    · cases e
+
+/-- PROPERTY (one object, any history): the hypothesis `Sep` of the two theorems above holds for
+every closed heap with a single object held. -/
+theorem single_root_separated (res : String → CopyImpl) {h : Heap} (hc : Closed h) {r : Nat} (hr : r < h.length) :
+    Sep res ⟨h, [r]⟩ := sep_single res hc hr
+
+/-- PROPERTY (assignment stores a copy, heap level): an accepted `o_i<p>[x] = o_j<q>.copy()` —
+`shape.landmarks['k'] = group`, `image.landmarks = other.landmarks` — puts into slot `x` a reference
+to a cell that did not exist before, whose unfolding at that moment equals the source's, and
+everything that cell owns is new as well; the source and every other object held are untouched
+(`history_frame`). -/
+theorem putCopy_stores_copy {tbl : AttrTable} {sup : SupplierTable} (hwf : copyWF tbl sup = true) {w w' : HW}
+    (S : Sep (resOf sup) w) (i : Nat) (p : Path) (x : String) (j : Nat) (q : Path)
+    (e : stepH tbl sup w (.putCopy i p x j q) = .ok w') :
+    ∃ a k fs s h1 c, nodeAt (resOf sup) w i p = .ok (a, k, fs) ∧ copyAt tbl sup w.heap s = .ok (h1, c) ∧
+      w'.heap[a]? = some (.node k (putSlot fs x (.ref c))) ∧ w.heap.length ≤ c ∧
+      (∀ m, absF m h1 (.ref c) = absF m w.heap (.ref s)) ∧
+      (∀ m, absO (resOf sup) m .full w'.heap (.ref c) = absO (resOf sup) m .full h1 (.ref c)) ∧
+      (∀ b, Own (resOf sup) w'.heap .full (.ref c) b → w.heap.length ≤ b) := by
+  simp only [stepH] at e
+  split at e
+  · cases e
+  · rename_i a k fs hn
+    obtain ⟨ri, hi, ho, hcell⟩ := nodeAt_ok hn
+    split at e
+    · split at e
+      · cases e
+      · rename_i rj hj
+        split at e
+        · cases e
+        · rename_i s l hr
+          split at e
+          · rename_i h1 c hcp
+            cases e
+            have hs : s < w.heap.length := S.own_lt hj (resolve_own _ w.heap q .full rj _ _ hr).1
+            have F := copyAt_facts hwf S.closed hs hcp
+            have halt : a < h1.length := Nat.lt_of_lt_of_le (get_lt hcell) F.ext.len
+            have agree : ∀ b, Own (resOf sup) h1 .full (.ref c) b →
+                (h1.set a (.node k (putSlot fs x (.ref c))))[b]? = h1[b]? := by
+              intro b o
+              have := F.fresh .full b o
+              have := get_lt hcell
+              exact List.getElem?_set_ne (by omega)
+            refine ⟨a, k, fs, s, h1, c, hn, hcp, List.getElem?_set_self halt, F.new, F.same, ?_, ?_⟩
+            · intro m
+              exact absO_frame _ _ _ m .full (.ref c) agree
+            · intro b o
+              exact F.fresh .full b (own_frame o agree)
+          · cases e
+    · cases e
+
+/-! ### non-vacuity of part 3: a history on the example heap of part 1 -/
+
+/-- the landmarked cloud (cell 5) is held; copy it, copy the copy, write into the original's points
+and into the first copy's landmark group, give the second copy a new group copied from the
+original's, rebind the first copy's points, delete the original's group -/
+def exHist : List HOp :=
+  [.copy 0, .copy 1,
+   .write 0 ["points"] [0, 0, 0, 0],
+   .write 1 ["_landmarks", "_landmark_groups", "g", "points"] [7, 7],
+   .putCopy 2 ["_landmarks", "_landmark_groups"] "h" 0 ["_landmarks", "_landmark_groups", "g"],
+   .putFresh 1 [] "points" [.buf [3, 3]],
+   .del 0 ["_landmarks", "_landmark_groups"] "g",
+   .copy 2]
+
+example : (runH exTbl exSup ⟨exHeap, [5]⟩ exHist).toOption.map (fun w => (w.heap.length, w.roots)) =
+    some (36, [5, 16, 23, 35]) := by decide
+/-- refusals: a path through the documented sharing, a missing key, a fragment that is not fresh -/
+def errOf : Except HErr HW → Option HErr
+  | .error e => some e
+  | .ok _ => none
+example : errOf (stepH exTbl exSup ⟨exHeap, [7]⟩ (.write 0 ["_source", "points"] [1])) = some .badPath := by decide
+example : errOf (stepH exTbl exSup ⟨exHeap, [5]⟩ (.del 0 ["_landmarks", "_landmark_groups"] "zz")) = some .missing := by
+  decide
+example : errOf (stepH exTbl exSup ⟨exHeap, [5]⟩ (.putFresh 0 [] "points" [.node .list [("0", .ref 4)]])) =
+    some .badFrag := by decide
+/-- the side conditions of `attr_update_conforms` / `dict_update_conforms` on the example: `points` may hold an
+array, the manager's `_landmark_groups` may hold a dict of objects; a dict of arrays there is not listed -/
+example : kindListed exTbl "PointCloud" "points" (.elem .buf) = true := by decide
+/-- the hypotheses of `putFresh_conforms` on the example: the root of the held cloud is an object with a
+`points` attribute, the fragment (one array) is well-typed, an array is listed for `points` -/
+example : (nodeAt (resOf exSup) ⟨exHeap, [5]⟩ 0 []).toOption.map (fun r => (r.1, r.2.1)) =
+    some (5, .obj "PointCloud") := by decide
+example : [Cell.buf [3, 3]].all (wtCell exTbl exSup (exHeap ++ [.buf [3, 3]])) = true := by decide
+example : kindListed exTbl "PointCloud" "points"
+    (kindOf (exHeap ++ [.buf [3, 3]]) (.ref (exHeap.length + 1 - 1))) = true := by decide
+example : refsListed exTbl exHeap 2 (.dictOf .obj) = true := by decide
+example : refsListed exTbl exHeap 2 (.dictOf .buf) = false := by decide
+example : (runH exTbl exSup ⟨exHeap, [5]⟩ exHist).toOption.map (fun w => wtHeap exTbl exSup w.heap) = some true := by
+  decide
+
+/-- teeth: under the resolution table in which `LandmarkManager` falls back to `Copyable.copy`
+(`copyWF exTbl badSup = false`, so the theorems do not apply) the same machine shows the leak: a write
+through the copy's landmark group lands in the original's group (cell 0) -/
+example : (runH exTbl badSup ⟨exHeap, [5]⟩
+    [.copy 0, .write 1 ["_landmarks", "_landmark_groups", "g", "points"] [7, 7]]).toOption.map
+      (fun w => w.heap[0]?) = some (some (.buf [7, 7])) := by decide
+example : (runH exTbl exSup ⟨exHeap, [5]⟩
+    [.copy 0, .write 1 ["_landmarks", "_landmark_groups", "g", "points"] [7, 7]]).toOption.map
+      (fun w => w.heap[0]?) = some (some (.buf [1, 2])) := by decide
 
 end MenpoModel.C06
 
@@ -663,6 +932,63 @@ theorem assign_stores_copy {w : World} (hw : WInv w) {o mi : Nat} {w' : World} (
       · cases ha
   · cases ha
 
+/-- PROPERTY (refinement of `_transform_inplace`): transforming a manager (or its owner) in place
+applies the transform exactly once to every group of that manager — the groups are distinct objects
+— and keeps names and order; with `mutate_through_manager_frame`: and to nothing else. -/
+theorem xform_refines {w : World} (hw : WInv w) (mi : Nat) (δ : Int) (w' : World)
+    (hx : xformMgr w mi δ = .ok w') :
+    absM w' mi = (absM w mi).map fun p => (p.1, p.2.shift δ) := by
+  obtain ⟨tags, h⟩ := hw
+  simp only [xformMgr] at hx
+  split at hx
+  · cases hx
+  · rename_i m hm
+    cases hx
+    have hmgrs : ∀ (as : List Nat) (w0 : World), (as.foldl (fun w a => mutateAt w a δ) w0).mgrs = w0.mgrs := by
+      intro as
+      induction as with
+      | nil => intro w0; rfl
+      | cons a t ih => intro w0; simp only [List.foldl_cons]; rw [ih, (mutateAt_rest w0 a δ).1]
+    simp only [absM, hmgrs, hm, Option.getD_some, absMgr, List.map_map]
+    apply List.map_congr_left
+    intro p hp
+    have hmem : p.2 ∈ m.addrs := by simp only [Mgr.addrs, List.mem_map]; exact ⟨p, hp, rfl⟩
+    simp only [Function.comp, store_foldl_mutateAt δ m.addrs w (addrs_nodup h hm) p.2, hmem, if_true]
+    obtain ⟨s, hs⟩ := store_some_of_tag h (h.own mi m hm p.1 p.2 hp)
+    simp [hs]
+
+/-- PROPERTY (observers refine the ordered map): iteration / `group_labels` / `keys()`, `n_groups` /
+`len`, `has_landmarks`, `items_matching` / `keys_matching` and `n_dims` are functions of the ordered
+map `absM` alone: names in insertion order, its length, non-emptiness, the entries whose name the
+glob accepts (in insertion order), the dimensionality of the first entry. -/
+theorem observers_refine {w : World} (hw : WInv w) (mi : Nat) (sel : List Nat) :
+    mgrKeys w mi = (absM w mi).map (·.1) ∧
+    nGroups w mi = (absM w mi).length ∧
+    hasLandmarks w mi = !(absM w mi).isEmpty ∧
+    itemsMatching w mi sel = (absM w mi).filter (fun p => sel.contains p.1) ∧
+    (itemsMatching w mi sel).map (·.1) = (mgrKeys w mi).filter (fun k => sel.contains k) ∧
+    mgrNDims w mi = (absM w mi).head?.map (·.2.dim) := by
+  obtain ⟨tags, h⟩ := hw
+  refine ⟨?_, ?_, ?_, ?_, ?_, ?_⟩
+  · simp [mgrKeys, absM, absMgr, Mgr.keys]
+  · simp [nGroups, absM, absMgr]
+  · simp only [hasLandmarks, nGroups, absM, absMgr]
+    cases (w.mgrs[mi]?).getD [] <;> simp
+  · simp only [itemsMatching, absM, absMgr, List.filter_map]
+    rfl
+  · simp only [itemsMatching, mgrKeys, Mgr.keys, List.map_map, List.filter_map]
+    rfl
+  · simp only [mgrNDims, absM]
+    cases hm : w.mgrs[mi]? with
+    | none => simp [Mgr.nDims, absMgr]
+    | some m =>
+      cases m with
+      | nil => simp [Mgr.nDims, absMgr]
+      | cons p t =>
+        obtain ⟨k, a⟩ := p
+        obtain ⟨s, hs⟩ := store_some_of_tag h (h.own mi _ hm k a List.mem_cons_self)
+        simp [Mgr.nDims, absMgr, hs]
+
 /-! ### non-vacuity of part 2: a history with every kind of operation and every refusal -/
 
 def exOps : List Op :=
@@ -677,7 +1003,8 @@ def exOps : List Op :=
    .set (.mgr 0) (some 3) (.ext 0), .set (.mgr 0) (some 7) (.ext 0),   -- re-set keeps position
    .get (.mgr 0) none,                     -- two groups: ambiguous
    .assign 0 (.mgr 0), .mutGot (.mgr 0) (some 3) 100, .xform (.owner 0) 1000,
-   .copyOwner 0, .del (.mgr 0) (some 7), .del (.mgr 0) (some 7), .keys (.mgr 0), .copy (.owner 1)]
+   .copyOwner 0, .del (.mgr 0) (some 7), .del (.mgr 0) (some 7), .keys (.mgr 0), .copy (.owner 1),
+   .items (.owner 0) [3, 9], .count (.mgr 0), .count (.mgr 1)]
 
 def exReplies : List Reply :=
   (exOps.foldl (fun (acc : World × List Reply) op => ((step acc.1 op).1, acc.2 ++ [(step acc.1 op).2]))
@@ -686,7 +1013,8 @@ def exReplies : List Reply :=
 example : exReplies =
     [.idx 0, .idx 0, .idx 0, .idx 1, .ok, .err .dim, .err .noneKey, .err .notPC, .err .attr, .ok,
      .shape ⟨0, 2, [1, 2, 3, 4]⟩, .ok, .ok, .err .ambiguous, .ok, .ok, .ok, .idx 1, .ok, .err .missing,
-     .keys [3], .idx 4] := by decide
+     .keys [3], .idx 4, .items [(3, ⟨0, 2, [1011, 1012, 1013, 1014]⟩)], .count 1 true (some 2),
+     .count 0 false none] := by decide
 
 /-- the manager kept the value the shape had when it was assigned; the owner's copy saw the
 transform but not the edit through the assigned manager -/
